@@ -151,7 +151,9 @@ def run_grid(case, counters, viol, nontrivial):
                         if not np.isclose(float(to_np(r.log_evidence)), float(to_np(s.log_evidence)), rtol=1e-5, atol=1e-6):
                             bad.append("log_evidence changed")
                     if bad:
-                        viol.append({"mech": f"C15/{op}-" + bad[0].split(" ")[-1 if 'width' in bad[0] else 0].replace("->", "to"), "detail": f"{cell}: {bad}"})
+                        first = bad[0]
+                        key = "width-changed" if "width" in first else ("values-changed" if "values" in first else ("namespace-wrong" if "namespace" in first or " is a " in first else ("field-presence-changed" if "presence" in first else "other")))
+                        viol.append({"mech": f"C15/{op}-{key}", "detail": f"{cell}: {bad}"})
                     if a != b or w0 != (32 if a == "torch" else 64):
                         nontrivial.add(cell)
 
